@@ -6,29 +6,36 @@ import ast
 from ..loops import dotted, find_env_loop
 from ..nf import NF, Scope, Poly, parse_expr
 from ..repo import Repo, loc, short, AnalysisError, positional_params, param_names, bind_call
+from ..sem import OrderModel, Unknown, order_formula, eval_order_formula, guard_literals
 from ..sympath import enumerate_paths, PathEval
 
 EXPLANATION = (
-    "assess_performance_and_checkpoint is loop free: all its acyclic paths are enumerated and evaluated with polynomial values for the "
-    "CheckpointState fields (per-path abstract interpretation). On every path the returned number of training steps is 0 or the window's "
-    "accumulated step counter (old + steps_per_episode) - none lost, none duplicated -, the three window counters are reset exactly on the "
-    "paths that release steps, the checkpoint flag is set exactly on the path `not (min_return < best) and episodes == max_episodes` together "
-    "with best := min, the early cut is exactly `min_return < best`, and the window switch sits inside the reset block under the chained "
-    "comparison evaluated with the pre-reset counter. In train_td7 the release loop runs exactly `training_steps` times with one epoch "
-    "increment each, the assessment is called at episode ends only, and the checkpoint copy is guarded by the returned flag."
+    "assess_performance_and_checkpoint is loop free and only compares its numeric quantities, so its behaviour is a finite table: all "
+    "acyclic paths are evaluated symbolically (polynomial values of the CheckpointState fields, branch conditions as comparisons of "
+    "polynomials in the state at the test), and in every world of a finite order model (one weak ordering per cluster "
+    "{episode_return, old min_return, best_min_return}, {episodes+1, max_episodes}, {epoch, threshold, epoch+window steps}; min() "
+    "resolved per world; window steps > 0) the path whose conditions hold must return and store exactly what the documented table says: "
+    "released steps = window steps on cut/complete and 0 otherwise, the three counters reset exactly on release, flag exactly on a "
+    "completed window with best := min, the switch exactly under release and epoch < threshold <= epoch + window steps.  In train_td7 the "
+    "assessment is reached after a step exactly when the episode ended (truth table over terminated/truncated) with the step / return / "
+    "epoch counters in their roles (identified by their update statements), the release loop runs exactly as many iterations as the "
+    "assessment returned (position 1 of its result) with one epoch increment and one training step each, nothing else releases steps in "
+    "checkpoint mode, and the checkpoint copy is guarded by position 0 of the result of the assessment of this step."
 )
-TRUSTED = ["Python chained comparison semantics", "the epoch counter only grows (needed for `the switch happens once`, not decided)"]
+TRUSTED = ["Python comparison semantics", "steps_per_episode >= 1 at an episode end (the window's step count is positive when steps are released)",
+           "the epoch counter only grows (needed for `the switch happens once`, not decided)"]
 RULES = {
-    "R1-conservation": "returned training_steps is 0 or timesteps_since_upate (after adding this episode's steps) on every path; the counter is written only by `+= steps_per_episode` and the reset",
-    "R2-reset-set": "episodes_since_udpate, timesteps_since_upate and min_return are reset together, exactly on the paths that release training steps",
-    "R3-checkpoint-guard": "update_checkpoint is True exactly on the path not(min_return < best_min_return) and episodes_since_udpate == max_episodes_before_update, where best_min_return := min_return; "
-                           "early cut exactly when min_return < best_min_return; min_return folded with min(.., episode_return) first",
-    "R4-window-switch": "max_episodes_before_update and best_min_return*=reset_weight are written only under epoch < steps_before_checkpointing <= epoch + timesteps (pre-reset value), inside the release block",
-    "R5-release-loop": "train_td7: assessment called iff (terminated or truncated) and use_checkpoints (after warm-up); release loop has exactly training_steps iterations with epoch += 1 each; checkpoint copy guarded by the flag, (source, destination) order",
+    "R1-conservation": "in every order world the active path returns training_steps = old timesteps + steps_per_episode on cut / completed window and 0 otherwise",
+    "R2-reset-set": "episodes, timesteps and min_return are (0, 0, 1e8) exactly in the worlds that release steps, else (old+1, old+steps, min(old, return))",
+    "R3-checkpoint-guard": "update_checkpoint is True exactly in the worlds not(min < best) and episodes+1 == max_episodes, where best_min_return := min; cut exactly when min < best",
+    "R4-window-switch": "max_episodes_before_update := max_episodes_when_checkpointing and best *= reset_weight exactly in releasing worlds with epoch < threshold <= epoch + window steps",
+    "R5-release-loop": "train_td7: assessment reached iff (terminated or truncated) in checkpoint mode (after warm-up) with the counters in their roles; release loop has exactly result[1] iterations with one epoch increment and one training step each; "
+                       "no other release in checkpoint mode; checkpoint copy guarded by result[0] of this step's assessment, source = trained policy",
 }
 
 AQ = "rl_blox.blox.checkpointing.assess_performance_and_checkpoint"
-S = "checkpoint_state"
+TQ = "rl_blox.algorithm.td7.train_td7"
+FIELDS = ["episodes_since_udpate", "timesteps_since_upate", "max_episodes_before_update", "min_return", "best_min_return"]
 
 
 def _const_under(cfg, e, assume, at):
@@ -42,202 +49,456 @@ def _const_under(cfg, e, assume, at):
         return _const_under(cfg, e.body if v else e.orelse, assume, at)
     return None
 
-def run(ck, repo: Repo, tier: str):
-    nf = NF(repo, inline_depth=2)
+
+def _assess_table(ck, repo, nf):
     fn = repo.func(AQ)
     mi = fn._module
     cfg = nf.cfg_of(fn)
     params = param_names(fn)
-    ck.need(params[:4] == [S, "steps_per_episode", "episode_return", "epoch"], f"{AQ}: signature changed (anchor vanished)")
+    ck.need(len(params) >= 7, f"{AQ}: signature changed (anchor vanished)")
+    S, SPE, RET, EPOCH, RW, MEWC, SBC = params[:7]     # roles by position (public signature)
     cls = repo.cls("rl_blox.blox.checkpointing.CheckpointState")
     fields = [n.target.id for n in cls.body if isinstance(n, ast.AnnAssign) and isinstance(n.target, ast.Name)]
-    need = ["episodes_since_udpate", "timesteps_since_upate", "max_episodes_before_update", "min_return", "best_min_return"]
-    ck.need(all(f in fields for f in need), f"CheckpointState fields changed: {fields}")
-    E, T, M, MIN, BEST = (f"{S}.{f}" for f in need)
+    ck.need(all(f in fields for f in FIELDS), f"CheckpointState fields changed: {fields}")
+    E, T, M, MIN, BEST = (f"{S}.{f}" for f in FIELDS)
+    env0 = {p: Poly.atom(p, {p}, {p}) for p in params}
+    old = {f"{S}.{f}": Poly.atom(f"old.{f}") for f in FIELDS}
+    e1, t1 = old[E] + Poly.const(1), old[T] + env0[SPE]
+    m1 = nf.poly(parse_expr("min(OLDMIN, RETURN)"), Scope(None, mi, {"OLDMIN": old[MIN], "RETURN": env0[RET]}, AQ), None)
+    ck.need(m1.single_atom() is not None, f"min() has no atomic normal form: {m1.canon()}")
+    base_atoms = {a for v in list(env0.values()) + list(old.values()) for a in v.atoms()}
+    # ---- the order model ---------------------------------------------------------------------------------------------------------
+    model = OrderModel()
+    c1 = model.cluster([env0[RET], old[MIN], old[BEST]])
+    model.derive(m1.single_atom(), "min", c1, 0, 1)
+    model.cluster([e1, old[M]])
+    model.cluster([env0[EPOCH], env0[SBC], env0[EPOCH] + t1], constraint=lambda r: r[0] < r[2])      # window steps > 0
+    model.cluster([Poly.const(0), Poly.const(1), t1], constraint=lambda r: r[0] < r[1] <= r[2])         # window steps >= 1
+    model.cluster([Poly.const(0), Poly.const(1), env0[SPE]], constraint=lambda r: r[0] < r[1] <= r[2])  # an episode has at least one step
+    CUT = ("cmp", "lt", m1, old[BEST])
+    FULLEQ = ("cmp", "eq", e1, old[M])
+    SWC = ("and", (("cmp", "lt", env0[EPOCH], env0[SBC]), ("not", ("cmp", "lt", env0[EPOCH] + t1, env0[SBC]))))
+    RESET_MIN = None
+    # ---- paths ---------------------------------------------------------------------------------------------------------------------
     paths = enumerate_paths(cfg, cfg.entry, {cfg.exit})
     ck.floor("acyclic-paths", len(paths), 5)
-    env0 = {p: Poly.atom(p, {p}, {p}) for p in params}
-    old = {f"{S}.{f}": Poly.atom(f"old.{f}") for f in need}
-    ts_new = old[T] + env0["steps_per_episode"]
-    sc0 = Scope(None, mi, {**env0}, AQ)
-    min_new = nf.poly(parse_expr(f"min(OLDMIN, episode_return)"), Scope(None, mi, {**env0, "OLDMIN": old[MIN]}, AQ), None)
-    seen_kinds = set()
-    _mx = [n for n in cfg.nodes if n.kind == "stmt" and isinstance(n.ast, ast.Assign) and dotted(n.ast.targets[0]) == M]
-    _deps = [b for b, lab in cfg.control_deps(_mx[0].id) if cfg.nodes[b].kind == "test" and lab is True] if len(_mx) == 1 else []
-    SWITCH_NODE = _deps[0] if _deps else -1
+    summaries = []
     for p in paths:
         pe = PathEval(nf, cfg, mi, AQ, env0)
         pe.store = dict(old)
-        pe.run(p)
-        # what was returned
-        ret_node = [nid for nid, lab in p if isinstance(cfg.nodes[nid].ast, ast.Return)]
-        ck.need(len(ret_node) == 1, f"{AQ}: path without return")
-        rv = pe.ev(cfg.nodes[ret_node[0]].ast.value)
-        ck.need(rv.elems is not None and len(rv.elems) == 2, f"{AQ}: must return (update_checkpoint, training_steps)")
-        flag, steps = rv.elems[0].canon(), rv.elems[1]
-        conds = []
+        names, conds = {}, []
+        ret = None
         for nid, lab in p:
             n = cfg.nodes[nid]
-            if n.kind == "test":
-                conds.append((" ".join(ast.unparse(n.ast.test).split()), lab))
-        cut = next((lab for t, lab in conds if t == f"{MIN} < {BEST}"), None)
-        full = next((lab for t, lab in conds if t == f"{E} == {M}"), None)
-        rel = next((lab for t, lab in conds if t == "training_steps > 0"), None)
-        switch = next((lab for (t, lab), (nid, _l) in zip(conds, [(n_, l_) for n_, l_ in p if cfg.nodes[n_].kind == "test"]) if nid == SWITCH_NODE), None)
-        ck.need(cut is not None and rel is not None, f"{AQ}: branch structure changed (unrecognised idiom): {conds}")
-        kind = "cut" if cut else ("full" if full else "continue")
-        label = f"{kind}/{'release' if rel else 'keep'}{'/switch' if switch else ''}"
-        # infeasible: continue-path with training_steps > 0, or cut/full path with steps == 0 is the `ts == 0` corner (accepted)
-        if kind == "continue" and rel:
-            # training_steps is the literal 0 here, the branch cannot be taken
-            ck.ob("R1-conservation", AQ, f"path:{label}:infeasible", steps.canon() == "0", f"training_steps = {steps.canon()} on the no-release path", "" if steps.canon() == "0" else "steps released although the window continues", loc(mi, fn))
-            continue
-        seen_kinds.add(label)
-        where = loc(mi, fn)
-        # R1
-        want_steps = Poly.const(0) if kind == "continue" else ts_new
-        ok = steps == want_steps
-        ck.ob("R1-conservation", AQ, f"path:{label}:released", ok, f"training_steps = {steps.canon()}", "" if ok else f"expected {want_steps.canon()} (the environment steps collected in this window, none lost or duplicated)", where)
-        # R2 reset
-        e_end, t_end, m_end = pe.store.get(E), pe.store.get(T), pe.store.get(MIN)
-        if rel:
-            ok = e_end.canon() == "0" and t_end.canon() == "0" and m_end.canon() == "100000000"
-            ck.ob("R2-reset-set", AQ, f"path:{label}:reset", ok, f"episodes={e_end.canon()}, timesteps={t_end.canon()}, min_return={m_end.canon()}", "" if ok else "all three window counters must be reset when steps are released", where)
-        else:
-            ok = e_end == old[E] + Poly.const(1) and t_end == ts_new and m_end == min_new
-            ck.ob("R2-reset-set", AQ, f"path:{label}:kept", ok, f"episodes={e_end.canon()}, timesteps={t_end.canon()}, min_return={m_end.canon()[:60]}",
-                  "" if ok else "without a release the counters must be old+1, old+steps_per_episode and min(old, episode_return)", where)
-            if kind != "continue":
-                # cut/full path whose `training_steps > 0` test is false: only possible for ts == 0; the released value is still ts
-                pass
-        # R3
-        want_flag = "1" if kind == "full" else "0"  # booleans are 1 / 0 in the polynomial domain
-        ok = flag == want_flag
-        ck.ob("R3-checkpoint-guard", AQ, f"path:{label}:flag", ok, f"update_checkpoint = {flag}", "" if ok else f"the checkpoint flag must be {want_flag} on this path", where)
-        b_end = pe.store.get(BEST)
-        if kind == "full":
-            want_b = min_new * (env0["reset_weight"] if switch else Poly.const(1))
-            ok = b_end == want_b
-            ck.ob("R3-checkpoint-guard", AQ, f"path:{label}:best", ok, f"best_min_return = {b_end.canon()[:80]}", "" if ok else "a completed window must record its minimum return as the new best", where)
-        else:
-            want_b = old[BEST] * (env0["reset_weight"] if switch else Poly.const(1))
-            ok = b_end == want_b
-            ck.ob("R3-checkpoint-guard", AQ, f"path:{label}:best", ok, f"best_min_return = {b_end.canon()[:80]}", "" if ok else "best_min_return may only change when a window completes (or by the reset weight at the switch)", where)
-        # R4
-        mx = pe.store.get(M)
-        if switch:
-            ok = rel and mx.canon() == "max_episodes_when_checkpointing"
-            ck.ob("R4-window-switch", AQ, f"path:{label}:switch", ok, f"max_episodes_before_update = {mx.canon()}", "" if ok else "the switch must happen inside the release block and set max_episodes_when_checkpointing", where)
-        else:
-            ok = mx == old[M]
-            ck.ob("R4-window-switch", AQ, f"path:{label}:no-switch", ok, f"max_episodes_before_update = {mx.canon()}", "" if ok else "the window size may only change at the switch", where)
-    for want in ("cut/release", "full/release", "continue/keep"):
-        ck.ob("R3-checkpoint-guard", AQ, f"has-path:{want}", any(k.startswith(want) for k in seen_kinds), f"paths: {sorted(seen_kinds)}", "" if any(k.startswith(want) for k in seen_kinds) else f"no `{want}` path", loc(mi, fn))
-    # the switch condition (the test guarding the write of max_episodes_before_update) and its position before the reset
-    mx_writes = [n for n in cfg.nodes if n.kind == "stmt" and isinstance(n.ast, ast.Assign) and dotted(n.ast.targets[0]) == M]
-    ck.need(len(mx_writes) == 1, f"{AQ}: expected one write of max_episodes_before_update")
-    deps = [b for b, lab in cfg.control_deps(mx_writes[0].id) if cfg.nodes[b].kind == "test" and lab is True]
-    ck.need(deps, f"{AQ}: window-size write is unconditional (unrecognised idiom)")
-    sw = [cfg.nodes[deps[0]]]
-    ssc = Scope(None, mi, {}, AQ)
-    got = nf.poly(sw[0].ast.test, ssc, None).canon()
-    want = nf.poly(parse_expr(f"epoch < steps_before_checkpointing <= epoch + {T}"), ssc, None).canon()
-    ok = got == want
-    ck.ob("R4-window-switch", AQ, "condition", ok, f"if {' '.join(ast.unparse(sw[0].ast.test).split())[:120]}",
-          "" if ok else f"the switch must happen exactly when the training-iteration count crosses the threshold: epoch < steps_before_checkpointing <= epoch + {T} (normal form `{want}`), got `{got[:120]}`", loc(mi, sw[0].ast))
-    resets = [n for n in cfg.nodes if n.kind == "stmt" and isinstance(n.ast, ast.Assign) and dotted(n.ast.targets[0]) == T]
-    ok = len(resets) == 1 and cfg.dominates(sw[0].id, resets[0].id)
-    ck.ob("R4-window-switch", AQ, "evaluated-before-reset", ok, "switch test precedes the counter reset", "" if ok else "the switch must be evaluated with the window's step count, i.e. before the counter is zeroed", loc(mi, sw[0].ast))
-    # writers of the counter
-    writers = sorted(" ".join(ast.unparse(n.ast).split()) for n in cfg.nodes if n.kind == "stmt" and isinstance(n.ast, (ast.Assign, ast.AugAssign)) and dotted(n.ast.targets[0] if isinstance(n.ast, ast.Assign) else n.ast.target) == T)
-    ok = writers == sorted([f"{T} += steps_per_episode", f"{T} = 0"])
-    ck.ob("R1-conservation", AQ, "counter-writers", ok, f"{writers}", "" if ok else "the step counter may only be advanced by steps_per_episode and reset to 0", loc(mi, fn))
+            if n.kind == "test" and hasattr(n.ast, "test") and lab in (True, False):
+                f = order_formula(nf, n.ast.test, pe.scope(), names)
+                conds.append(f if lab else ("not", f))
+            if n.kind == "stmt" and isinstance(n.ast, ast.Assign) and len(n.ast.targets) == 1 and isinstance(n.ast.targets[0], ast.Name):
+                v = n.ast.value
+                if isinstance(v, (ast.Compare, ast.BoolOp)) or (isinstance(v, ast.UnaryOp) and isinstance(v.op, ast.Not)) or (isinstance(v, ast.Constant) and isinstance(v.value, bool)) \
+                        or (isinstance(v, ast.Name) and v.id in names):
+                    names[n.ast.targets[0].id] = order_formula(nf, v, pe.scope(), names)
+                else:
+                    names.pop(n.ast.targets[0].id, None)
+            if n.kind == "stmt" and isinstance(n.ast, ast.Return):
+                ck.need(n.ast.value is not None, f"{AQ}: bare return")
+                rv = n.ast.value
+                if isinstance(rv, ast.Tuple) and len(rv.elts) == 2:
+                    flag_f = order_formula(nf, rv.elts[0], pe.scope(), names)
+                    ret = (flag_f, pe.ev(rv.elts[1]))
+                else:
+                    val = pe.ev(rv)
+                    ck.need(val.elems is not None and len(val.elems) == 2, f"{AQ}: must return (update_checkpoint, training_steps)")
+                    ret = (("truth", val.elems[0]), val.elems[1])
+            pe.step(nid, lab)
+        ck.need(ret is not None, f"{AQ}: path without return")
+        summaries.append((p, conds, ret, dict(pe.store)))
+    # ---- worlds -------------------------------------------------------------------------------------------------------------------------
+    where = loc(mi, fn)
+    n_worlds = 0
+    seen_kinds = set()
+    viol = {}     # (rule, key) -> (detail, why)
+    checked = set()
 
-    # ---- train_td7 ------------------------------------------------------------------------------------------
-    TQ = "rl_blox.algorithm.td7.train_td7"
-    L = find_env_loop(repo, TQ)
-    cfg, mi = L.cfg, L.mi
-    calls = [(n, c) for n in cfg.nodes if n.ast is not None and n.kind == "stmt" for c in ast.walk(n.ast) if isinstance(c, ast.Call) and dotted(c.func) == "assess_performance_and_checkpoint"]
-    ck.need(len(calls) == 1, f"{TQ}: assessment call not found")
-    n, c = calls[0]
-    b = bind_call(fn, c)
-    got = {k: dotted(v) for k, v in b.items()}
-    want = {S: "checkpoint_state", "steps_per_episode": "steps_per_episode", "episode_return": "accumulated_reward", "epoch": "epoch", "reset_weight": "reset_weight",
-            "max_episodes_when_checkpointing": "max_episodes_when_checkpointing", "steps_before_checkpointing": "steps_before_checkpointing"}
-    ck.ob("R5-release-loop", TQ, "assessment-arguments", got == want, f"{got}", "" if got == want else f"expected {want}", loc(mi, c))
-    tgt = n.ast.targets[0] if isinstance(n.ast, ast.Assign) else None
-    ok = isinstance(tgt, ast.Tuple) and [dotted(x) for x in tgt.elts] == ["update_checkpoint", "training_steps"]
-    ck.ob("R5-release-loop", TQ, "result-unpacked", ok, f"{short(tgt) if tgt is not None else None} = assess(...)", "" if ok else "results must be unpacked as (update_checkpoint, training_steps)", loc(mi, n.ast))
-    lits = []
-    for bnode, lab in cfg.control_deps(n.id):
-        bn = cfg.nodes[bnode]
-        if bn.kind == "test" and isinstance(bn.ast, ast.If):
-            lits += [(t, v) for t, v in cfg._lits(bn.ast.test, lab, bnode)]
-    tv, uv = L.pos[2], L.pos[3]
-    # aliases (`done = terminated or truncated`) are represented by their expansion
-    lits = [(t, v) for t, v in lits if not (t.isidentifier() and t != "use_checkpoints" and cfg._expand_name(ast.Name(id=t, ctx=ast.Load()), n.id) is not None)]
-    texts = {t for t, v in lits if v}
-    neg = {t for t, v in lits if not v}
-    has_ckpt = "use_checkpoints" in texts
-    has_end = f"{tv} or {uv}" in texts or f"{uv} or {tv}" in texts or f"({tv} or {uv})" in texts
-    # a warm-up gate on the step counter is not part of this property (C11 decides it) and is allowed; anything else skips assessments
-    extras = sorted(t for t in (texts - {"use_checkpoints", f"{tv} or {uv}", f"{uv} or {tv}"}) if "learning_starts" not in t and "logger" not in t) + sorted(f"not {t}" for t in neg if "logger" not in t)
-    ok = has_ckpt and has_end and not extras
-    why = ""
-    if not has_ckpt or not has_end:
-        why = "the assessment must run at every episode end (terminated or truncated) in checkpoint mode: otherwise episodes of the window are not counted"
-    elif extras:
-        why = f"the assessment is additionally conditioned on {extras}: some episode ends are skipped, so their steps are never released (or the window never closes)"
-    ck.ob("R5-release-loop", TQ, "assessment-guard", ok, f"called under {sorted(texts)}{(' and not ' + str(sorted(neg))) if neg else ''}", why, loc(mi, c))
-    # release loop
-    loops = [m for m in cfg.nodes if m.kind == "for" and "training_steps" in ast.unparse(m.ast.iter)]
-    ck.need(len(loops) == 1, f"{TQ}: release loop not found")
-    lp = loops[0]
-    it = lp.ast.iter
-    sc = Scope(None, mi, {}, TQ)
-    okr = isinstance(it, ast.Call) and dotted(it.func) == "range"
-    trip = None
-    if okr:
+    def understood(pv: Poly):
+        return pv.atoms() <= base_atoms
+
+    def sweep():
+        nonlocal n_worlds
+        n_worlds = 0
+        seen_kinds.clear(); viol.clear(); checked.clear()
+        for w in model.worlds():
+            n_worlds += 1
+            try:
+                active = [sm for sm in summaries if all(eval_order_formula(model, w, f) for f in sm[1])]
+                cut = eval_order_formula(model, w, CUT)
+                full = (not cut) and eval_order_formula(model, w, FULLEQ)
+                release = cut or full
+                sw = release and eval_order_formula(model, w, SWC)
+            except Unknown:
+                raise
+            if len(active) != 1:
+                raise AnalysisError(f"{AQ}: {len(active)} paths are enabled in the world [{model.describe(w)}] (path conditions not exclusive: unrecognised form)")
+            p, conds, (flag_f, steps), store = active[0]
+            kind = "cut" if cut else ("full" if full else "continue")
+            label = f"{kind}{'/switch' if sw else ''}"
+            seen_kinds.add(label)
+            m1w = model.resolve(w, m1)
+            want = {
+                "R1-conservation:released": (t1 if release else Poly.const(0), "the released training iterations must equal the environment steps collected in this window (old counter + this episode), 0 while the window continues"),
+                "R2-reset-set:episodes": (Poly.const(0) if release else e1, "the episode counter is reset exactly when steps are released, else advanced by one"),
+                "R2-reset-set:timesteps": (Poly.const(0) if release else t1, "the step counter is reset exactly when steps are released, else advanced by the episode's steps"),
+                "R3-checkpoint-guard:best": ((m1w if full else old[BEST]) * (env0[RW] if sw else Poly.const(1)), "best_min_return changes only when a window completes (to the window's minimum return) and by the reset weight at the switch"),
+                "R4-window-switch:window-size": (env0[MEWC] if sw else old[M], "the window size changes exactly at the switch, to max_episodes_when_checkpointing"),
+            }
+            got = {
+                "R1-conservation:released": steps,
+                "R2-reset-set:episodes": store.get(E),
+                "R2-reset-set:timesteps": store.get(T),
+                "R3-checkpoint-guard:best": store.get(BEST),
+                "R4-window-switch:window-size": store.get(M),
+            }
+            # min_return: the fold value while the window continues, the (large) reset constant on release
+            mg = model.resolve(w, store.get(MIN))
+            if release:
+                ok_m = mg.is_const() and mg.const_value() >= 10 ** 6
+                if not ok_m and not understood(mg):
+                    raise AnalysisError(f"{AQ}: min_return after a release is `{mg.canon()[:80]}` (unrecognised form)")
+            else:
+                ok_m = mg == model.resolve(w, m1w)
+                if not ok_m and not understood(mg):
+                    raise AnalysisError(f"{AQ}: min_return is `{mg.canon()[:80]}` (unrecognised form)")
+            checked.add("R2-reset-set:min_return")
+            if not ok_m:
+                viol.setdefault("R2-reset-set:min_return", (f"min_return = {mg.canon()[:60]} in the world [{model.describe(w)}] ({label})",
+                                                              "min_return must be min(old, episode_return) while the window continues and reset to its large initial value on release"))
+            for key, (wv, why) in want.items():
+                gv = model.resolve(w, got[key])
+                wv = model.resolve(w, wv)
+                checked.add(key)
+                if gv == wv:
+                    continue
+                if not understood(gv):
+                    raise AnalysisError(f"{AQ}: value `{gv.canon()[:80]}` for {key} is not a polynomial of the entry state (unrecognised form)")
+                viol.setdefault(key, (f"{key.split(':')[1]} = {gv.canon()[:60]}, documented {wv.canon()[:60]} in the world [{model.describe(w)}] ({label})", why))
+            try:
+                flag = eval_order_formula(model, w, flag_f)
+            except Unknown as u:
+                raise AnalysisError(f"{AQ}: returned flag depends on `{str(u)[:80]}` (unrecognised form)")
+            checked.add("R3-checkpoint-guard:flag")
+            if flag != full:
+                viol.setdefault("R3-checkpoint-guard:flag", (f"update_checkpoint = {flag} in the world [{model.describe(w)}] ({label})",
+                                                               "the checkpoint may be replaced exactly when a complete window finished with every return at least the best minimum so far"))
+
+    for _attempt in range(4):
+        try:
+            sweep()
+            break
+        except Unknown as u:
+            # a comparison outside the documented table: if it relates entry-state quantities through a free atom it becomes an
+            # independent relation of the model (the code's dependence on it is then compared with the table, which ignores it)
+            if not model.extend_free(u.poly, base_atoms):
+                raise AnalysisError(f"{AQ}: a branch compares `{str(u)[:100]}`, which is outside the order model of the documented table (unrecognised form)")
+    else:
+        raise AnalysisError(f"{AQ}: too many comparisons outside the documented table")
+    for key in sorted(checked):
+        rule, k = key.split(":")
+        v = viol.get(key)
+        ck.ob(rule, AQ, f"table:{k}", v is None, f"{n_worlds} order worlds, {len(summaries)} paths" if v is None else v[0], "" if v is None else v[1], where)
+    for wantk in ("cut", "full", "continue", "cut/switch", "full/switch"):
+        ck.ob("R3-checkpoint-guard", AQ, f"world-kind:{wantk}", wantk in seen_kinds, f"kinds: {sorted(seen_kinds)}", "" if wantk in seen_kinds else f"no world of kind `{wantk}` (model degenerate)", where)
+    ck.floor("order-worlds", n_worlds, 100)
+    return fn
+
+
+def _whole(cfg, name: str, at: int, call, depth: int = 0) -> bool:
+    """The variable holds the complete result of ``call`` at ``at`` (single definition, through copies)."""
+    if depth > 6:
+        return False
+    ds = cfg.defs_of(at, name)
+    if len(ds) != 1 or ds[0].kind != "assign":
+        return False
+    v = ds[0].value
+    if v is call:
+        return True
+    return isinstance(v, ast.Name) and _whole(cfg, v.id, ds[0].node, call, depth + 1)
+
+
+def _origin_def(cfg, d, call, depth: int = 0):
+    """Position of the result of ``call`` that the definition ``d`` stores, or None."""
+    if depth > 6:
+        return None
+    if d.kind == "unpack" and d.path and len(d.path) == 1:
+        if d.value is call or (isinstance(d.value, ast.Name) and _whole(cfg, d.value.id, d.node, call)):
+            return d.path[0]
+        return None
+    if d.kind == "assign" and isinstance(d.value, ast.Name):
+        return _origin(cfg, d.value.id, d.node, call, depth + 1)
+    if d.kind == "assign" and isinstance(d.value, ast.Subscript) and isinstance(d.value.value, ast.Name) and isinstance(d.value.slice, ast.Constant) and isinstance(d.value.slice.value, int) \
+            and _whole(cfg, d.value.value.id, d.node, call):
+        return d.value.slice.value
+    return None
+
+
+def _origin(cfg, name: str, at: int, call, depth: int = 0):
+    """Position in the result of ``call`` a variable holds at ``at`` (single definition, through copies), or None."""
+    ds = cfg.defs_of(at, name)
+    if len(ds) != 1:
+        return None
+    return _origin_def(cfg, ds[0], call, depth)
+
+
+def _trip_count(cfg, nf, mi, lp, qual):
+    """Number of iterations of a counting loop as a polynomial: `for _ in range(a, b)` -> b - a; `i = c; while i < N: ...; i += 1` -> N - c."""
+    sc = Scope(None, mi, {}, qual)
+    if lp.kind == "for":
+        it = lp.ast.iter
+        if not (isinstance(it, ast.Call) and dotted(it.func) == "range" and not it.keywords and 1 <= len(it.args) <= 3):
+            raise AnalysisError(f"{qual}: release loop iterates over `{short(it, 50)}` (unrecognised form)")
         a = [nf.poly(x, sc, None) for x in it.args]
-        trip = (a[0] if len(a) == 1 else a[1] - a[0])
-    ok = trip is not None and trip.canon() == "training_steps" and (len(it.args) < 3)
-    ck.ob("R5-release-loop", TQ, "trip-count", ok, f"for ... in {ast.unparse(it)}: {trip.canon() if trip is not None else '?'} iterations", "" if ok else "the release loop must run exactly training_steps times", loc(mi, lp.ast))
-    incs = [m for m in cfg.nodes if m.kind == "stmt" and isinstance(m.ast, ast.AugAssign) and dotted(m.ast.target) == "epoch" and lp.id in cfg.enclosing_loops(m.id)]
-    ok = len(incs) == 1 and ast.unparse(incs[0].ast) == "epoch += 1" and cfg.enclosing_loops(incs[0].id)[0] == lp.id and len(cfg.control_deps(incs[0].id)) == len(cfg.control_deps(lp.id)) + 1
-    ck.ob("R5-release-loop", TQ, "one-epoch-per-iteration", ok, f"{[ast.unparse(m.ast) for m in incs]}", "" if ok else "each released training iteration must advance epoch exactly once", loc(mi, lp.ast))
-    ts_calls = [m for m in cfg.nodes if m.ast is not None and m.kind == "stmt" and lp.id in cfg.enclosing_loops(m.id) for x in ast.walk(m.ast) if isinstance(x, ast.Call) and dotted(x.func) == "_train_step"]
-    ok = len(ts_calls) == 1 and len(cfg.control_deps(ts_calls[0].id)) == len(cfg.control_deps(lp.id)) + 1
-    ck.ob("R5-release-loop", TQ, "one-train-step-per-iteration", ok, f"{len(ts_calls)} _train_step call(s) in the loop body", "" if ok else "each iteration must perform exactly one training step", loc(mi, lp.ast))
-    # in checkpoint mode nothing is released unless an assessment says so: every other definition of the trip count that can
-    # reach the release loop with use_checkpoints true must be the constant 0 (otherwise steps are released twice)
-    n_def = 0
-    for d in cfg.defs_of(lp.id, "training_steps"):
-        if d.node == n.id:
+        if len(a) == 3 and a[2].canon() != "1":
+            return None
+        return a[0] if len(a) == 1 else a[1] - a[0]
+    t = lp.ast.test
+    if not (isinstance(lp.ast, ast.While) and isinstance(t, ast.Compare) and len(t.ops) == 1 and isinstance(t.ops[0], (ast.Lt, ast.Gt, ast.LtE, ast.GtE))):
+        raise AnalysisError(f"{qual}: release loop condition `{short(t, 50)}` (unrecognised form)")
+    l, r = t.left, t.comparators[0]
+    if isinstance(t.ops[0], (ast.Gt, ast.GtE)):
+        l, r = r, l
+    if not isinstance(l, ast.Name):
+        raise AnalysisError(f"{qual}: release loop condition `{short(t, 50)}` (unrecognised form)")
+    lbody = cfg.loop_body_nodes(lp.id)
+    inside, outside = [], []
+    for d in cfg.defs_of(lp.id, l.id):
+        (inside if d.node in lbody else outside).append(d)
+    ok_in = inside and all(isinstance(cfg.nodes[d.node].ast, ast.AugAssign) and isinstance(cfg.nodes[d.node].ast.op, ast.Add) and isinstance(cfg.nodes[d.node].ast.value, ast.Constant) and cfg.nodes[d.node].ast.value.value == 1 for d in inside)
+    ok_out = len(outside) == 1 and outside[0].kind == "assign" and isinstance(outside[0].value, ast.Constant) and isinstance(outside[0].value.value, int)
+    bound_names = {x.id for x in ast.walk(r) if isinstance(x, ast.Name)}
+    rebinds = any(d.name in bound_names for m in cfg.nodes if m.id in lbody for d in m.defs)
+    if not (ok_in and ok_out) or rebinds or not _once_per_iteration(cfg, lp.id, [d.node for d in inside]):
+        raise AnalysisError(f"{qual}: counting loop `while {short(t, 50)}` (unrecognised form)")
+    n_ = nf.poly(r, sc, None) - Poly.const(outside[0].value.value)
+    return n_ + Poly.const(1) if isinstance(t.ops[0], (ast.LtE, ast.GtE)) else n_
+
+
+def _role_of_counter(cfg, L, name: str, body: set):
+    """Classify a loop variable by its update statements inside the loop: 'steps' (+= 1 / = 0), 'return' (+= reward / = 0), else None."""
+    kinds = set()
+    for n in cfg.nodes:
+        if n.id not in body:
             continue
-        dl = [(t, v) for bnode, lab in cfg.control_deps(d.node) if cfg.nodes[bnode].kind == "test" and isinstance(cfg.nodes[bnode].ast, ast.If) for t, v in cfg._lits(cfg.nodes[bnode].ast.test, lab, bnode)]
-        if ("use_checkpoints", False) in dl:
-            continue  # plain mode: outside this property
-        n_def += 1
-        val = _const_under(cfg, d.value, {"use_checkpoints": True}, d.node) if d.kind == "assign" and d.value is not None else None
-        if val is None:
-            raise AnalysisError(f"{TQ}: `{short(cfg.nodes[d.node].ast, 60)}` - cannot evaluate the number of released steps in checkpoint mode (unrecognised idiom)")
-        ck.ob("R5-release-loop", TQ, f"default-release:{short(cfg.nodes[d.node].ast, 40)}", val == 0, f"`{short(cfg.nodes[d.node].ast, 60)}` = {val} when use_checkpoints", "" if val == 0 else "in checkpoint mode only the assessment may release training iterations: this default releases steps that the window will release again", loc(mi, cfg.nodes[d.node].ast))
-    ck.ob("R5-release-loop", TQ, "default-release", n_def >= 1, f"{n_def} default definition(s) of training_steps reach the release loop in checkpoint mode", "" if n_def else "no default for steps without an assessment (previous trip count would be reused)", loc(mi, lp.ast))
-    # checkpoint copy
-    cps = [(m, x) for m in cfg.nodes if m.ast is not None and m.kind == "stmt" for x in ast.walk(m.ast) if isinstance(x, ast.Call) and dotted(x.func) == "hard_target_net_update" and len(x.args) == 2 and dotted(x.args[1]) == "checkpoint"]
-    ck.need(len(cps) == 1, f"{TQ}: checkpoint copy not found")
-    m, x = cps[0]
-    g = [t for bnode, lab in cfg.control_deps(m.id)[:1] for t, v in cfg._lits(cfg.nodes[bnode].ast.test, lab, bnode) if v]
-    ok = g == ["update_checkpoint"] and dotted(x.args[0]) == "policy"
-    ck.ob("R5-release-loop", TQ, "checkpoint-copy", ok, f"`{short(x)}` under {g}", "" if ok else "the checkpoint must be overwritten with the current policy, and only when the assessment returned the flag", loc(mi, x))
-    flag_defs = cfg.defs_of(m.id, "update_checkpoint")
-    fresh = len(flag_defs) == 1 and flag_defs[0].node == n.id and cfg.dominates(n.id, m.id)
-    ck.ob("R5-release-loop", TQ, "flag-from-this-assessment", fresh, f"update_checkpoint read at the copy is defined at line(s) {sorted(cfg.nodes[d.node].lineno for d in flag_defs)}",
-          "" if fresh else "the flag read at the copy is not (only) the result of the assessment of this step: a stale True from an earlier window overwrites the checkpoint with an unassessed policy", loc(mi, x))
+        for d in n.defs:
+            if d.name != name:
+                continue
+            s = n.ast
+            if d.kind == "aug" and isinstance(s.op, ast.Add):
+                if isinstance(s.value, ast.Constant) and s.value.value == 1:
+                    kinds.add("inc1")
+                elif isinstance(s.value, ast.Name) and s.value.id == L.pos.get(1):
+                    kinds.add("addreward")
+                else:
+                    kinds.add("other")
+            elif d.kind == "assign" and isinstance(d.value, ast.Constant) and d.value.value in (0, 0.0) and not isinstance(d.value.value, bool):
+                kinds.add("zero")
+            else:
+                kinds.add("other")
+    if kinds == {"inc1", "zero"}:
+        return "steps"
+    if kinds == {"addreward", "zero"}:
+        return "return"
+    return None
+
+
+def _td7_loop(ck, repo, nf, afn):
+    L = find_env_loop(repo, TQ)
+    cfg, mi, fn = L.cfg, L.mi, L.fn
+    aparams = param_names(afn)
+    S, SPE, RET, EPOCH, RW, MEWC, SBC = aparams[:7]
+    calls = [(n, c) for n in cfg.nodes if n.ast is not None and n.kind == "stmt" for c in ast.walk(n.ast)
+             if isinstance(c, ast.Call) and isinstance(c.func, (ast.Name, ast.Attribute)) and repo.resolve_expr(mi, c.func) == AQ]
+    ck.need(len(calls) == 1, f"{TQ}: expected one assessment call, found {len(calls)}")
+    n, c = calls[0]
+    body = cfg.loop_body_nodes(L.outer_header)
+    b = bind_call(afn, c)
+    # ---- argument roles -------------------------------------------------------------------------------------------------------
+    a_spe, a_ret, a_epoch = b.get(SPE), b.get(RET), b.get(EPOCH)
+    for role, arg, wantk in (("steps_per_episode", a_spe, "steps"), ("episode_return", a_ret, "return")):
+        ck.need(isinstance(arg, ast.Name), f"{TQ}: {role} argument `{short(arg) if arg is not None else None}` is not a variable (unrecognised form)")
+        k = _role_of_counter(cfg, L, arg.id, body)
+        other = "return" if wantk == "steps" else "steps"
+        if k is None:
+            raise AnalysisError(f"{TQ}: cannot classify `{arg.id}` (passed as {role}) by its updates")
+        ck.ob("R5-release-loop", TQ, f"argument:{role}", k == wantk, f"{role} <- `{arg.id}` ({k} counter)", "" if k == wantk else f"the {other} counter is passed as {role}: window steps / returns are mixed up", loc(mi, c))
+    ck.need(isinstance(a_epoch, ast.Name), f"{TQ}: epoch argument is not a variable (unrecognised form)")
+    epoch_var = a_epoch.id
+    params_t = set(param_names(fn))
+    for role, pname in ((RW, RW), (MEWC, MEWC), (SBC, SBC)):
+        arg = b.get(pname)
+        ok = isinstance(arg, ast.Name) and arg.id == pname and pname in params_t
+        ck.ob("R5-release-loop", TQ, f"argument:{role}", ok, f"{role} <- `{short(arg) if arg is not None else None}`", "" if ok else f"the configured `{pname}` must be passed through", loc(mi, c))
+    st_arg = b.get(S)
+    st_defs = cfg.defs_of(n.id, st_arg.id) if isinstance(st_arg, ast.Name) else []
+    ok = len(st_defs) == 1 and st_defs[0].node not in body
+    ck.ob("R5-release-loop", TQ, "argument:state", ok, f"state <- `{short(st_arg) if st_arg is not None else None}` (defined once, before the loop)", "" if ok else "the window state must be one object that lives across iterations (re-creating it forgets the collected steps)", loc(mi, c))
+    # ---- result positions ---------------------------------------------------------------------------------------------------
+    ck.need(isinstance(n.ast, ast.Assign) and n.ast.value is c, f"{TQ}: the assessment result is not assigned (unrecognised form)")
+    # ---- the assessment runs exactly at episode ends in checkpoint mode ----------------------------------
+    tv, uv = L.pos.get(2), L.pos.get(3)
+    ck.need(tv and uv, f"{TQ}: terminated / truncated are discarded")
+    for x, y in ((True, False), (False, True), (True, True), (False, False)):
+        p = cfg.paths_avoiding(L.step_node, n.id, {L.step_node}, assume={tv: x, uv: y, "use_checkpoints": True})
+        want_reach = x or y
+        ok = (p is not None) == want_reach
+        ck.ob("R5-release-loop", TQ, f"assessment-at-episode-end:{x},{y}", ok, f"terminated={x}, truncated={y}: assessment {'reachable' if p is not None else 'not reachable'}",
+              "" if ok else ("episode ends of this kind are not assessed: their steps are never released" if want_reach else "the assessment also runs inside an episode: the episode is counted several times"), loc(mi, c),
+              cfg.describe_path(p) if (p is not None and not want_reach) else None)
+    lits = guard_literals(nf, cfg, mi, n.id)
+    extras = []
+    for g in lits:
+        names_g = set(_names_in(g))
+        if names_g <= {tv, uv}:
+            continue
+        if g == "use_checkpoints":
+            continue
+        if "learning_starts" in names_g and g.startswith(("Lt(", "LtE(")):
+            continue      # warm-up gate (C11 decides it)
+        extras.append(g)
+    definite = [g for g in extras if g.startswith("IsNot(") and (set(_names_in(g)) - {"None"}) <= params_t]
+    if extras and not definite:
+        raise AnalysisError(f"{TQ}: the assessment is additionally conditioned on {extras} (cannot decide whether episode ends are skipped)")
+    ck.ob("R5-release-loop", TQ, "assessment-guard", not definite, f"called under {lits}", "" if not definite else f"the assessment is additionally conditioned on {definite}: with that option unset the episode ends are not assessed and their steps never released", loc(mi, c))
+    # ---- release loop --------------------------------------------------------------------------------------------------------------
+    ts_nodes = [m for m in cfg.nodes if m.ast is not None and m.kind == "stmt" for x in ast.walk(m.ast)
+                if isinstance(x, ast.Call) and isinstance(x.func, (ast.Name, ast.Attribute)) and repo.resolve_expr(mi, x.func) == "rl_blox.algorithm.td7._train_step"]
+    ck.need(len(ts_nodes) >= 1, f"{TQ}: no call of _train_step (anchor vanished)")
+    loops_of = {tuple(l for l in cfg.enclosing_loops(m.id) if l != L.outer_header and l in body) for m in ts_nodes}
+    ck.need(len(loops_of) == 1 and len(next(iter(loops_of))) == 1, f"{TQ}: the training step is not inside exactly one release loop (unrecognised form)")
+    lp = cfg.nodes[next(iter(loops_of))[0]]
+    trip = _trip_count(cfg, nf, mi, lp, TQ)
+    hdr_txt = f"for ... in {ast.unparse(lp.ast.iter)}" if lp.kind == "for" else f"while {ast.unparse(lp.ast.test)}"
+    tvar = trip.single_atom() if trip is not None else None
+    if trip is None or tvar is None or not tvar.isidentifier():
+        ok_trip = False
+        if trip is not None and not (trip.atoms() and all(x.isidentifier() for x in trip.atoms())):
+            raise AnalysisError(f"{TQ}: trip count `{trip.canon()[:60]}` of the release loop not understood")
+    else:
+        ok_trip = True
+    ck.ob("R5-release-loop", TQ, "trip-count", ok_trip, f"{hdr_txt}: {trip.canon() if trip is not None else '?'} iterations", "" if ok_trip else "the release loop must run exactly as many times as the assessment released", loc(mi, lp.ast))
+    if ok_trip:
+        # every definition of the trip variable reaching the loop: position 1 of this step's assessment, or a default that is 0 in checkpoint mode
+        n_def = n_res = 0
+        for d in cfg.defs_of(lp.id, tvar):
+            pos = _origin_def(cfg, d, c)
+            if pos is not None:
+                n_res += 1
+                ck.ob("R5-release-loop", TQ, "trip-from-result", pos == 1, f"`{tvar}` holds position {pos} of the assessment result", "" if pos == 1 else "the release loop is driven by the checkpoint flag, not by the number of released steps", loc(mi, cfg.nodes[d.node].ast))
+                continue
+            dl = [(t, v) for bnode, lab in cfg.control_deps(d.node) if cfg.nodes[bnode].kind == "test" and isinstance(cfg.nodes[bnode].ast, ast.If) for t, v in cfg._lits(cfg.nodes[bnode].ast.test, lab, bnode)]
+            if ("use_checkpoints", False) in dl:
+                continue  # plain mode: outside this property
+            n_def += 1
+            val = _const_under(cfg, d.value, {"use_checkpoints": True}, d.node) if d.kind == "assign" and d.value is not None else None
+            if val is None:
+                raise AnalysisError(f"{TQ}: `{short(cfg.nodes[d.node].ast, 60)}` - cannot evaluate the number of released steps in checkpoint mode (unrecognised idiom)")
+            ck.ob("R5-release-loop", TQ, f"default-release:{short(cfg.nodes[d.node].ast, 40)}", val == 0, f"`{short(cfg.nodes[d.node].ast, 60)}` = {val} when use_checkpoints", "" if val == 0 else "in checkpoint mode only the assessment may release training iterations: this default releases steps that the window will release again", loc(mi, cfg.nodes[d.node].ast))
+        ck.ob("R5-release-loop", TQ, "trip-from-result", n_res >= 1, f"{n_res} definition(s) of `{tvar}` come from the assessment", "" if n_res else "the assessment's released step count never reaches the release loop", loc(mi, lp.ast))
+        ck.ob("R5-release-loop", TQ, "default-release", n_def >= 1, f"{n_def} default definition(s) of {tvar} reach the release loop in checkpoint mode", "" if n_def else "no default for steps without an assessment (previous trip count would be reused)", loc(mi, lp.ast))
+        # the loop is reached from the assessment without the trip variable being rebound (checked by the reaching definitions above) and on every
+        # path: no branch between assessment and loop may skip it
+        skip = cfg.paths_avoiding(n.id, L.step_node, {lp.id}) or cfg.paths_avoiding(n.id, cfg.exit, {lp.id, L.step_node})
+        if skip is not None:
+            # leaving through the episode limit / end of the run is not a skipped release only if nothing was released: cannot be decided structurally
+            ck.ob("R5-release-loop", TQ, "release-not-skipped", False, "a path from the assessment to the next step / the exit avoids the release loop", "released training iterations are dropped on this path", loc(mi, lp.ast), cfg.describe_path(skip))
+        else:
+            ck.ob("R5-release-loop", TQ, "release-not-skipped", True, "every path from the assessment reaches the release loop", "", loc(mi, lp.ast))
+    # one epoch increment and one training step per iteration
+    lbody = cfg.loop_body_nodes(lp.id)
+    incs = [m for m in cfg.nodes if m.id in lbody for d in m.defs if d.name == epoch_var]
+    ok_form = all(isinstance(m.ast, ast.AugAssign) and isinstance(m.ast.op, ast.Add) and isinstance(m.ast.value, ast.Constant) and m.ast.value.value == 1 for m in incs)
+    if incs and not ok_form:
+        bad = [m for m in incs if not (isinstance(m.ast, ast.AugAssign) and isinstance(m.ast.op, ast.Add))]
+        if bad:
+            raise AnalysisError(f"{TQ}: `{short(bad[0].ast, 50)}` - update of the epoch counter not understood")
+    once = bool(incs) and ok_form and _once_per_iteration(cfg, lp.id, [m.id for m in incs])
+    ck.ob("R5-release-loop", TQ, "one-epoch-per-iteration", once, f"{[ast.unparse(m.ast) for m in incs]}", "" if once else "each released training iteration must advance the epoch counter exactly once (the window switch compares it with the threshold)", loc(mi, lp.ast))
+    once_t = _once_per_iteration(cfg, lp.id, [m.id for m in ts_nodes])
+    ck.ob("R5-release-loop", TQ, "one-train-step-per-iteration", once_t, f"{len(ts_nodes)} _train_step call(s) in the loop body", "" if once_t else "each iteration must perform exactly one training step", loc(mi, lp.ast))
+    # epoch increments elsewhere in the loop would shift the window switch
+    other_incs = [m for m in cfg.nodes if m.id in body and m.id not in lbody for d in m.defs if d.name == epoch_var]
+    ck.ob("R5-release-loop", TQ, "epoch-only-in-release-loop", not other_incs, f"{len(other_incs)} other update(s) of `{epoch_var}` in the main loop", "" if not other_incs else "the epoch counter counts training iterations only", loc(mi, lp.ast))
+    # ---- checkpoint copy -------------------------------------------------------------------------------------------------------------
+    from .c06 import _helper_calls
+    from ..resolve import Resolver
+    res = Resolver(repo)
+    hcalls = _helper_calls(repo, res, fn, cfg)
+    ck.need(len(hcalls) >= 1, f"{TQ}: checkpoint copy not found (anchor vanished)")
+    tsfn = repo.func("rl_blox.algorithm.td7._train_step")
+    tcall = next(x for m in ts_nodes[:1] for x in ast.walk(m.ast) if isinstance(x, ast.Call) and isinstance(x.func, (ast.Name, ast.Attribute)) and repo.resolve_expr(mi, x.func) == "rl_blox.algorithm.td7._train_step")
+    trained = bind_call(tsfn, tcall).get("policy")
+    for hn, hc, hkind, (oe, te), hkey in hcalls:
+        gl = []
+        for bnode, lab in cfg.control_deps(hn):
+            bn = cfg.nodes[bnode]
+            if bn.kind == "test" and isinstance(bn.ast, ast.If):
+                gl += [(t, v, bnode) for t, v in cfg._lits(bn.ast.test, lab, bnode)]
+        flag_ok, stale = False, []
+        for t, v, bnode in gl:
+            if not (v and t.isidentifier()):
+                continue
+            origins = {_origin_def(cfg, d, c) for d in cfg.defs_of(bnode, t)}
+            if origins == {0} and cfg.dominates(n.id, hn):
+                flag_ok = True
+            elif 0 in origins:
+                stale.append(t)
+        why = ""
+        if not flag_ok:
+            why = "the checkpoint must be overwritten only when the assessment of this step returned the flag (position 0 of its result)"
+            if stale:
+                why = f"the flag `{stale[0]}` read at the copy is not only the result of this step's assessment: a stale True from an earlier window overwrites the checkpoint with an unassessed policy"
+        ck.ob("R5-release-loop", TQ, "checkpoint-copy-guard", flag_ok, f"`{short(hc)}` under {[t for t, v, _ in gl if v]}", why, loc(mi, hc))
+        src_ok = trained is not None and ast.dump(oe) == ast.dump(trained)
+        if not src_ok and not (isinstance(oe, ast.Name) and isinstance(trained, ast.Name)):
+            raise AnalysisError(f"{TQ}: source of the checkpoint copy `{short(oe)}` not comparable with the trained policy")
+        ck.ob("R5-release-loop", TQ, "checkpoint-copy-source", src_ok, f"copy source `{short(oe)}`, trained policy `{short(trained) if trained is not None else None}`", "" if src_ok else "the checkpoint must receive the policy that was just assessed", loc(mi, hc))
+
+
+def _names_in(canon: str):
+    import re
+    return [x for x in re.findall(r"[A-Za-z_][A-Za-z_0-9]*", canon) if x not in ("Lt", "LtE", "Eq", "NotEq", "Is", "IsNot", "and", "or", "not", "mod")]
+
+
+def _once_per_iteration(cfg, header: int, ids) -> bool:
+    """Exactly one of ``ids`` runs in every iteration of the loop ``header`` (every header -> header path passes exactly one)."""
+    ids = set(ids)
+    if not ids:
+        return False
+    # some iteration avoids all of them
+    if cfg.paths_avoiding(header, header, ids, first_label=True) is not None:
+        return False
+    for a in ids:
+        if cfg.enclosing_loops(a)[0] != header:
+            return False      # inside a nested loop: several per iteration
+        for b2 in ids:
+            if cfg.paths_avoiding(a, b2, {header}) is not None:
+                return False  # two of them in one iteration
+    return True
+
+
+def run(ck, repo: Repo, tier: str):
+    nf = NF(repo, inline_depth=2)
+    afn = None
+
+    afn = ck.guard(_assess_table, ck, repo, nf) or repo.func(AQ)
+    ck.guard(_td7_loop, ck, repo, nf, afn)
 
 
 _C, _T = "rl_blox/blox/checkpointing.py", "rl_blox/algorithm/td7.py"
 MUTANTS = [
+    {"id": "c15-branchy-max", "file": _C, "rule": "R", "find": "    checkpoint_state.min_return = min(\n        checkpoint_state.min_return, episode_return\n    )", "replace": "    if episode_return > checkpoint_state.min_return:\n        checkpoint_state.min_return = episode_return"},
+    {"id": "c15-td7-result-swapped", "file": _T, "rule": "R5", "find": "                update_checkpoint, training_steps = (\n                    assess_performance_and_checkpoint(", "replace": "                training_steps, update_checkpoint = (\n                    assess_performance_and_checkpoint("},
+    {"id": "c15-td7-while-off-by-one", "file": _T, "rule": "R5", "edits": [("            for delayed_train_step_idx in range(1, training_steps + 1):\n                epoch += 1\n", "            delayed_train_step_idx = 1\n            while delayed_train_step_idx < training_steps:\n                delayed_train_step_idx += 1\n                epoch += 1\n")]},
+    {"id": "c15-switch-by-flag", "file": _C, "rule": "R", "find": "            epoch\n            < steps_before_checkpointing\n            <= epoch + checkpoint_state.timesteps_since_upate\n", "replace": "            checkpoint_state.max_episodes_before_update != max_episodes_when_checkpointing\n            and epoch + training_steps >= steps_before_checkpointing\n"},
+    {"id": "c15-td7-return-steps-swapped", "file": _T, "rule": "R5", "find": "                        steps_per_episode,\n                        accumulated_reward,\n                        epoch,", "replace": "                        accumulated_reward,\n                        steps_per_episode,\n                        epoch,"},
     {"id": "c15-switch-condition-ge-only", "file": _C, "rule": "R4", "find": "            epoch\n            < steps_before_checkpointing\n            <= epoch + checkpoint_state.timesteps_since_upate\n", "replace": "            steps_before_checkpointing\n            <= epoch + checkpoint_state.timesteps_since_upate\n"},
     {"id": "c15-td7-stale-flag", "file": _T, "rule": "R5", "edits": [("    checkpoint_state = CheckpointState()\n", "    checkpoint_state = CheckpointState()\n    update_checkpoint = False\n"),
         ("                if update_checkpoint:\n                    hard_target_net_update(policy, checkpoint)\n                    epochs = {\n                        \"actor_checkpoint\": checkpoint.actor,\n                        \"fixed_embedding_checkpoint\": checkpoint.embedding,\n                    }\n                    if logger is not None:\n                        for k, v in epochs.items():\n                            logger.record_epoch(k, v, step=step + 1)\n                if logger is not None:\n                    for k, v in checkpoint_state.__dict__.items():\n                        logger.record_stat(k, v, step=step + 1)\n",
@@ -250,7 +511,9 @@ MUTANTS = [
     {"id": "c15-cut-le", "file": _C, "rule": "R", "find": "    if checkpoint_state.min_return < checkpoint_state.best_min_return:", "replace": "    if checkpoint_state.min_return <= checkpoint_state.best_min_return:", "accept_error": True},
     {"id": "c15-best-not-recorded", "file": _C, "rule": "R3", "find": "        checkpoint_state.best_min_return = checkpoint_state.min_return\n", "replace": ""},
     {"id": "c15-min-is-last", "file": _C, "rule": "R", "find": "    checkpoint_state.min_return = min(\n        checkpoint_state.min_return, episode_return\n    )", "replace": "    checkpoint_state.min_return = episode_return"},
-    {"id": "c15-switch-after-reset", "file": _C, "rule": "R4", "find": "        # Reset checkpoint monitoring.\n        checkpoint_state.episodes_since_udpate = 0\n        checkpoint_state.timesteps_since_upate = 0\n        checkpoint_state.min_return = 1e8\n",
+    {"id": "c15-switch-after-reset", "file": _C, "rule": "R4", "edits": [("        # Reset checkpoint monitoring.\n        checkpoint_state.episodes_since_udpate = 0\n        checkpoint_state.timesteps_since_upate = 0\n        checkpoint_state.min_return = 1e8\n", ""),
+        ("    if training_steps > 0:\n        # Switch to full checkpointing.\n", "    if training_steps > 0:\n        checkpoint_state.episodes_since_udpate = 0\n        checkpoint_state.timesteps_since_upate = 0\n        checkpoint_state.min_return = 1e8\n")]},
+    {"id": "c15-no-reset", "file": _C, "rule": "R2", "find": "        # Reset checkpoint monitoring.\n        checkpoint_state.episodes_since_udpate = 0\n        checkpoint_state.timesteps_since_upate = 0\n        checkpoint_state.min_return = 1e8\n",
      "replace": ""},
     {"id": "c15-switch-outside-release", "file": _C, "rule": "R4", "find": "    if training_steps > 0:\n        # Switch to full checkpointing.\n        if (", "replace": "    if True:\n        # Switch to full checkpointing.\n        if (", "accept_error": True},
     {"id": "c15-td7-range-off", "file": _T, "rule": "R5", "find": "            for delayed_train_step_idx in range(1, training_steps + 1):", "replace": "            for delayed_train_step_idx in range(1, training_steps):"},
@@ -260,6 +523,13 @@ MUTANTS = [
     {"id": "c15-td7-return-for-length", "file": _T, "rule": "R5", "find": "                        steps_per_episode,\n                        accumulated_reward,\n                        epoch,", "replace": "                        accumulated_reward,\n                        steps_per_episode,\n                        epoch,"},
 ]
 BENIGN = [
+    {"id": "c15-b-branchy-min", "file": _C, "find": "    checkpoint_state.min_return = min(\n        checkpoint_state.min_return, episode_return\n    )", "replace": "    if episode_return < checkpoint_state.min_return:\n        checkpoint_state.min_return = episode_return"},
+    {"id": "c15-b-truthy-steps", "file": _C, "find": "    if training_steps > 0:", "replace": "    if training_steps:"},
+    {"id": "c15-b-steps-ge-1", "file": _C, "find": "    if training_steps > 0:", "replace": "    if training_steps >= 1:"},
+    {"id": "c15-b-td7-result-var", "file": _T, "find": "                update_checkpoint, training_steps = (\n                    assess_performance_and_checkpoint(", "replace": "                assessment = (\n                    assess_performance_and_checkpoint(",
+     "edits": [("                update_checkpoint, training_steps = (\n                    assess_performance_and_checkpoint(", "                assessment = (\n                    assess_performance_and_checkpoint("),
+               ("                if update_checkpoint:\n                    hard_target_net_update(policy, checkpoint)", "                update_checkpoint, training_steps = assessment\n                if update_checkpoint:\n                    hard_target_net_update(policy, checkpoint)")]},
+    {"id": "c15-b-td7-while", "file": _T, "edits": [("            for delayed_train_step_idx in range(1, training_steps + 1):\n                epoch += 1\n", "            delayed_train_step_idx = 0\n            while delayed_train_step_idx < training_steps:\n                delayed_train_step_idx += 1\n                epoch += 1\n")]},
     {"id": "c15-b-switch-unchained", "file": _C, "find": "            epoch\n            < steps_before_checkpointing\n            <= epoch + checkpoint_state.timesteps_since_upate\n", "replace": "            epoch < steps_before_checkpointing\n            and epoch + checkpoint_state.timesteps_since_upate >= steps_before_checkpointing\n"},
     {"id": "c15-b-local-ts", "file": _C, "nth": 0, "find": "        training_steps = checkpoint_state.timesteps_since_upate\n", "replace": "        collected = checkpoint_state.timesteps_since_upate\n        training_steps = collected\n"},
     {"id": "c15-b-reset-order", "file": _C, "find": "        checkpoint_state.episodes_since_udpate = 0\n        checkpoint_state.timesteps_since_upate = 0\n", "replace": "        checkpoint_state.timesteps_since_upate = 0\n        checkpoint_state.episodes_since_udpate = 0\n"},
